@@ -154,12 +154,15 @@ def check(ctx):
                      'members must be written in stored order (no sorting): member elements are written inside loops over %s' % loops, detail=loops)
     # dispatch: Bitfield -> _write_bitfield, Enum -> _write_enum
     wn = py.func('girwriter', 'GIRWriter._write_node')
+    # from the writer model: <enumeration> is emitted under isinstance(node, ast.Enum), <bitfield> under isinstance(node, ast.Bitfield)
+    # (whether the dispatch is an if-chain or a table of (class, writer) pairs)
     disp = {}
-    for n in P.walk_no_nested(wn):
-        if isinstance(n, ast.If) and isinstance(n.test, ast.Call) and P.call_name(n.test) == 'isinstance':
-            disp[P.src(n.test.args[1])] = [P.call_name(s.value) for s in n.body if isinstance(s, ast.Expr)]
-    r2.check(disp.get('ast.Bitfield') == ['self._write_bitfield'] and disp.get('ast.Enum') == ['self._write_enum'],
-             'writer dispatch enum/bitfield', wm.rel, wn.lineno, 'writer dispatch for Enum/Bitfield is %s / %s'
+    for tag_, cls_ in (('enumeration', 'ast.Enum'), ('bitfield', 'ast.Bitfield')):
+        els_ = W.by_tag().get(tag_, [])
+        disp[cls_] = sorted(set(t_ for e_ in els_ for t_, pol_ in e_.guards if pol_ and re.match(r'^isinstance\(\w+, ast\.\w+\)$', t_)))
+    okdisp = any(t_.endswith(', ast.Enum)') for t_ in disp['ast.Enum']) and not any(t_.endswith(', ast.Bitfield)') for t_ in disp['ast.Enum']) and \
+        any(t_.endswith(', ast.Bitfield)') for t_ in disp['ast.Bitfield']) and not any(t_.endswith(', ast.Enum)') for t_ in disp['ast.Bitfield'])
+    r2.check(okdisp, 'writer dispatch enum/bitfield', wm.rel, wn.lineno, 'writer dispatch for Enum/Bitfield is %s / %s'
              % (disp.get('ast.Enum'), disp.get('ast.Bitfield')))
     # _write_member attrs
     mem = [e for e in W.by_tag().get('member', [])]
